@@ -273,6 +273,37 @@ def case_fn(case):
         if not dev <= 1e-6 * abs(s0) * span + 1e-9 * frange:
             viol("slope-trend", name + ":line", "the subtracted correction "
                  f"is not the fitted baseline line (max dev {dev:.3e})")
+    # 4b. force offset *after* the slope correction, in one pipeline: the
+    # offset is the mean pre-contact force of what the earlier steps left
+    for region, strat in itertools.product(("baseline", "approach", "all"),
+                                           ("shift", "drift")):
+        opts = {"correct_force_slope": {"region": region,
+                                        "strategy": strat}}
+        name = f"correct_force_offset:after-slope:{region}:{strat}"
+        try:
+            apply(P + ["correct_force_slope"], opts)
+            before = snapshot(idnt)
+            apply(P + ["correct_force_slope", "correct_force_offset"], opts)
+        except BaseException as e:
+            if isinstance(e, (KeyboardInterrupt, SystemExit, MemoryError)):
+                raise
+            viol("step-raises", name, repr(e))
+            continue
+        after = snapshot(idnt)
+        nchecks += 1
+        idp = poc.compute_poc(np.array(before["force"], copy=True),
+                              "deviation_from_baseline")
+        if idp:
+            exp = before["force"] - np.mean(before["force"][:idp])
+            if not np.max(np.abs(after["force"] - exp)) <= \
+                    8 * ulp(before["force"]):
+                viol("force-offset-mean", name, "force offset after the "
+                     "slope correction: the force is not (force before the "
+                     "step) minus its mean over the pre-contact part "
+                     f"[0, {idp}) (max dev "
+                     f"{np.max(np.abs(after['force'] - exp)):.3e}, mean "
+                     f"pre-contact force now "
+                     f"{np.mean(after['force'][:idp]):.3e})")
     # 5. segment discovery
     apply(T)
     before = snapshot(idnt)
